@@ -194,6 +194,7 @@ def case_group(ctx, N, history):
     a2 = env.run("angularSpectrum", a1, lam, d1, d1, z2)
     b = env.run("angularSpectrum", U, lam, d1, d1, z1 + z2)
     rp = lambda m: harness.pristine_call(replay_group, N, dict(wvl=m(lam), d1=m(d1)), m(z1), m(z2), (m(d3) if d3 is not None else None))
+    ctx.fallback = rp
     env.prove_eq("P(z2)oP(z1) = P(z1+z2)", a2, b, rp, names)
     back = env.run("angularSpectrum", a1, lam, d1, d1, -z1)
     rp2 = lambda m: harness.pristine_call(_replay_inverse, N, m(lam), m(d1), m(z1), (m(d3) if d3 is not None else None), m(z2))
@@ -227,6 +228,7 @@ def case_mag(ctx, N, history):
     f = env.run("angularSpectrum", U, lam, d1, d2, zz)
     b = env.run("angularSpectrum", f, lam, d2, d1, -zz)
     rp = lambda m: harness.pristine_call(replay_mag, N, {k: m(t) for k, t in names.items()}, history)
+    ctx.fallback = rp
     env.prove_eq("back-propagation with 1/m recovers the input", b, U, rp, names)
     ctx.bounds["solver_proved_angle_relations"] = env.angles.relations
     ctx.bounds["inverse_pair_rewrites"] = env.cut.rewrites
@@ -251,6 +253,7 @@ def case_lens(ctx, N):
             lens[i, j] = core.sym_exp(Sym(0, -1) * k / (f * 2) * (xs[j] * xs[j] + xs[i] * xs[i]))
     b = env.run("oneStepFresnel", core.obj(U * lens), lam, d1, f)
     rp = lambda m: replay_lens(N, {k_: m(t) for k_, t in names.items()})
+    ctx.fallback = rp
     env.prove_eq("lensAgainst(U,f) = oneStepFresnel(U*lens,f)", a, b, rp, names)
     ctx.bounds["solver_proved_angle_relations"] = env.angles.relations
 
@@ -277,6 +280,7 @@ def case_two(ctx, N, unit):
     t = env.run("oneStepFresnel", U, lam, d1, Dz1)
     b = env.run("oneStepFresnel", t, lam, d1a, Dz2)
     rp = lambda mm: replay_two(N, {k_: mm(t_) for k_, t_ in names.items()})
+    ctx.fallback = rp
     env.prove_eq("twoStepFresnel = oneStep(Dz2) o oneStep(Dz1)", a, b, rp, names)
     # the second one-step lands on spacing d2: lambda Dz2 / (N d1a) = +- d2
     out_sp = lam * Dz2 / (d1a * N)
